@@ -207,7 +207,16 @@ class _WFile:
 
 
 class FakeStderr:
-    pass
+    def __init__(self, world=None):
+        self.w = world
+
+    def write(self, s):
+        if self.w is not None:
+            self.w.events.append(("stderr", s, ""))
+        return len(s)
+
+    def flush(self):
+        pass
 
 
 class FakeStdout:
@@ -221,11 +230,16 @@ class FakeStdout:
     def fileno(self):
         return 1
 
+    def write(self, s):
+        self.w._step("print")
+        self.w.events.append(("stdout", s, ""))
+        return len(s)
+
 
 class FakeSys:
     def __init__(self, world, argv):
         self.argv = argv
-        self.stderr = FakeStderr()
+        self.stderr = FakeStderr(world)
         self.stdout = FakeStdout(world)
         self._w = world
 
